@@ -268,6 +268,9 @@ class EqSystem(ReactionSystem):
 
     def _result_is_sane(self, init_concs, x, rtol=1e-9):
         sc_upper_bounds = np.array(self.upper_conc_bounds(init_concs))
+        if np.any(np.isnan(x)):  # nan compares False with everything
+            warnings.warn("Concentration is not a number")
+            return False
         neg_conc, too_much = np.any(x < 0), np.any(x > sc_upper_bounds * (1 + rtol))
         if neg_conc or too_much:
             if neg_conc:
